@@ -344,6 +344,8 @@ class WSStream:
             elif message["type"] == "websocket.send" and self.state == ASGIWebsocketState.CONNECTED:
                 event: WSProtoEvent
                 if message.get("bytes") is not None:
+                    if not isinstance(message["bytes"], (bytes, bytearray, memoryview)):
+                        raise TypeError(f"{message['bytes']} should be bytes")
                     event = BytesMessage(data=bytes(message["bytes"]))
                 elif not isinstance(message["text"], str):
                     raise TypeError(f"{message['text']} should be a str")
